@@ -1,4 +1,5 @@
 //! Engine-level property checks: configurations, alphabets, seeds, bounds.
+use cw_multi_test::Executor;
 use serde_json::{json, Value};
 
 use crate::acts::*;
@@ -17,6 +18,8 @@ pub enum Alpha {
 }
 
 pub struct Exp {
+    /// extra deployment step executed on each fresh world before the initial snapshot
+    pub setup: Option<fn(&mut World)>,
     pub name: String,
     pub cfg: Cfg,
     pub traders: Vec<&'static str>,
@@ -29,6 +32,7 @@ pub struct Exp {
 impl Exp {
     pub fn new(name: &str, cfg: Cfg, alpha: Vec<Act>, seeds: Vec<Vec<Act>>, depth: usize) -> Exp {
         Exp {
+            setup: None,
             name: name.to_string(),
             cfg,
             traders: T3.to_vec(),
@@ -59,13 +63,21 @@ pub fn run_exps(run: &mut Run, oracle: OracleFnPtr, exps: Vec<Exp>, lim_tweak: i
         let oracle_c = move |m: &EngModel, w: &mut World, s: &EngSt, a: &Act, o: &mut StepOut| {
             oracle(m, w, s, a, o)
         };
+        let setup_c;
+        let setup: Option<&(dyn Fn(&mut World) + Sync)> = match e.setup {
+            Some(f) => {
+                setup_c = move |w: &mut World| f(w);
+                Some(&setup_c)
+            }
+            None => None,
+        };
         let model = EngModel {
             cfg: e.cfg.clone(),
             traders: e.traders.clone(),
             alphabet,
             oracle: &oracle_c,
             init_mon: e.init_mon.clone(),
-            setup: None,
+            setup,
         };
         let mut lim = Limits::new(e.depth);
         lim_tweak(&mut lim);
@@ -73,6 +85,7 @@ pub fn run_exps(run: &mut Run, oracle: OracleFnPtr, exps: Vec<Exp>, lim_tweak: i
             "cfg": to_val(&e.cfg),
             "traders": e.traders,
             "init_mon": e.init_mon,
+            "setup": if e.setup.is_some() { json!(e.name) } else { Value::Null },
             "alphabet_size": match &e.alpha { Alpha::Static(v) => json!(v.len()), Alpha::Dyn(_) => json!("state-dependent") },
         });
         let name = format!("{} [{}]", e.name, e.cfg.label());
@@ -118,13 +131,21 @@ pub fn replay_eng(prop: &str, params: &Value, actions: &Value) -> Vec<Viol> {
     let alpha = |_: &mut World, _: &EngSt| vec![];
     let oracle_c =
         move |m: &EngModel, w: &mut World, s: &EngSt, a: &Act, o: &mut StepOut| oracle(m, w, s, a, o);
+    let setup_c;
+    let setup: Option<&(dyn Fn(&mut World) + Sync)> = match params["setup"].as_str() {
+        Some(n) if n.starts_with("3 traders 2 vamms") => {
+            setup_c = |w: &mut World| setup_c10(w);
+            Some(&setup_c)
+        }
+        _ => None,
+    };
     let model = EngModel {
         cfg,
         traders,
         alphabet: &alpha,
         oracle: &oracle_c,
         init_mon: params["init_mon"].clone(),
-        setup: None,
+        setup,
     };
     let mut ctx = model.make_ctx();
     let mut s = model.initial(&mut ctx);
@@ -310,38 +331,72 @@ fn step_c10(m: &EngModel, w: &mut World, s: &EngSt, a: &Act, out: &mut StepOut) 
     next(&so)
 }
 
-pub fn run_c10(tier: Tier) -> i32 {
-    let mut run = Run::new("C10", tier.clone());
-    run.rule = "every sequence over the alphabet (3 traders, 2 vAMMs) up to the depth bound; non-trivial = a successful engine transaction executed while some other trader held a position".into();
-    run.nontrivial = vec!["c10:ok-tx-with-foreign-positions".into()];
+/// an account whose name is a suffix of a trader's ("al"+"ice"): with free-form address strings a
+/// crafted vAMM string can make (vamm', sender) hash to another trader's position slot
+fn setup_c10(w: &mut World) {
+    if let Some(t) = w.token.clone() {
+        let eng = w.engine.to_string();
+        assert!(w.exec("alice", &t, &cw20::Cw20ExecuteMsg::Transfer { recipient: "ice".into(), amount: cosmwasm_std::Uint128::new(100 * D) }, 0).ok);
+        assert!(w.exec("ice", &t, &cw20::Cw20ExecuteMsg::IncreaseAllowance { spender: eng, amount: cosmwasm_std::Uint128::new(u128::MAX / 4), expires: None }, 0).ok);
+    } else {
+        w.app.send_tokens(cosmwasm_std::Addr::unchecked("alice"), cosmwasm_std::Addr::unchecked("ice"), &[cosmwasm_std::Coin::new(100 * D, DENOM)]).unwrap();
+    }
+}
+
+fn alpha_c10(w: &mut World, _s: &EngSt) -> Vec<Act> {
     let mut al = StdAlpha::basic(&T3);
     al.n_vamms = 2;
     al.sizes = vec![SIZE_M, SIZE_L];
-    al.prices = vec![8 * D];
+    al.prices = vec![];
+    al.rel_prices = vec![(1, 1)];
     al.blocks = vec![15, 3900];
     al.liquidators = vec!["liq", "bob"];
-    let alpha = al.acts();
+    let mut acts = al.acts();
+    // crafted deposit: vamm string = vamm address + "al", sender "ice"
+    for v in 0..w.vamms.len() {
+        acts.push(Act::DepRaw { by: "ice".into(), vamm: format!("{}al", w.vamms[v]), amt: 7 * D });
+    }
+    acts
+}
+
+pub fn run_c10(tier: Tier) -> i32 {
+    let mut run = Run::new("C10", tier.clone());
+    run.rule = "every sequence over the alphabet (3 traders, 2 vAMMs, liquidation by a third party and by a trader, a crafted DepositMargin whose vAMM string + sender concatenate to another trader's key) up to the depth bound from seeds in which all three traders hold positions (one of them dust-sized) and two are liquidatable; non-trivial = a successful engine transaction executed while some other trader held a position".into();
+    run.nontrivial = vec!["c10:ok-tx-with-foreign-positions".into()];
     let seed3 = vec![
-        Act::open("alice", true, SIZE_M.0, SIZE_M.1),
+        Act::open("carol", true, 9, 10 * D),
+        Act::open("alice", true, 25 * D, 10 * D),
         Act::Open { t: "alice".into(), v: 1, buy: false, margin: SIZE_M.0, lev: SIZE_M.1, limit: 0 },
+        Act::blk(15),
+        Act::open("bob", false, 45 * D, 1 * D),
+        Act::blk(1200),
+        px_at_spot(),
+    ];
+    let seed4 = vec![
+        Act::open("alice", true, SIZE_M.0, SIZE_M.1),
         Act::open("carol", true, SIZE_S.0, SIZE_S.1),
         Act::blk(15),
         Act::open("bob", false, 40 * D, 10 * D),
         Act::blk(1200),
         px_at_spot(),
     ];
-    let mut c = cfg_with(true, true, 250_000);
+    // partial ratio 10%: a position of fewer than 10 base micro-units cannot be split (dust)
+    let mut c = cfg_liq(true, true, 100_000);
     c.n_vamms = 2;
+    let mk = |c: Cfg, d: usize| Exp { setup: Some(setup_c10), name: "3 traders 2 vamms".into(), cfg: c, traders: T3.to_vec(), seeds: vec![vec![], seed3.clone(), seed4.clone()], alpha: Alpha::Dyn(alpha_c10), depth: d, init_mon: Value::Null };
     let mut exps = vec![];
     match tier {
         Tier::Quick => {
-            exps.push(Exp::new("3 traders 2 vamms", c, alpha, vec![vec![], seed3], 2));
+            exps.push(mk(c, 3));
         }
         Tier::Thorough => {
-            exps.push(Exp::new("3 traders 2 vamms", c.clone(), alpha.clone(), vec![vec![], seed3.clone()], 3));
+            exps.push(mk(c.clone(), 4));
             let mut cn = c.clone();
             cn.cw20 = false;
-            exps.push(Exp::new("3 traders 2 vamms", cn, alpha, vec![vec![], seed3], 3));
+            exps.push(mk(cn, 3));
+            let mut c0 = c.clone();
+            c0.plr = 0;
+            exps.push(mk(c0, 3));
         }
     }
     run_exps(&mut run, step_c10, exps, |_| {});
@@ -472,7 +527,7 @@ pub fn run_c05(tier: Tier) -> i32 {
     let seeds = vec![vec![], seed_funded(), seed_liquidatable()];
     let mut exps = vec![];
     let mut push = |c: Cfg, d: usize| {
-        exps.push(Exp { name: "leverage/withdraw boundaries".into(), cfg: c, traders: T2.to_vec(), seeds: seeds.clone(), alpha: Alpha::Dyn(alpha_c05), depth: d, init_mon: Value::Null });
+        exps.push(Exp { setup: None, name: "leverage/withdraw boundaries".into(), cfg: c, traders: T2.to_vec(), seeds: seeds.clone(), alpha: Alpha::Dyn(alpha_c05), depth: d, init_mon: Value::Null });
     };
     match tier {
         Tier::Quick => {
@@ -602,7 +657,7 @@ pub fn run_c06(tier: Tier) -> i32 {
         Act::blk(1200),
     ]);
     let mut push = |c: Cfg, d: usize| {
-        exps.push(Exp { name: "liq".into(), cfg: c, traders: T3.to_vec(), seeds: seeds.clone(), alpha: Alpha::Dyn(alpha_c06), depth: d, init_mon: Value::Null });
+        exps.push(Exp { setup: None, name: "liq".into(), cfg: c, traders: T3.to_vec(), seeds: seeds.clone(), alpha: Alpha::Dyn(alpha_c06), depth: d, init_mon: Value::Null });
     };
     match tier {
         Tier::Quick => {
@@ -746,6 +801,13 @@ pub fn run_c08(tier: Tier) -> i32 {
             }
             exps.push(Exp::new("fault sweep", cfg_with(true, true, 250_000), alpha.clone(), seeds.clone(), 4));
         }
+    }
+    // partial-close path: non-zero fluctuation limit, partial ratio 25%, trades sized around the band edge
+    {
+        let mut c = cfg_with(true, true, 250_000);
+        c.fluct = 50_000;
+        c.imr = 100_000;
+        exps.push(Exp { setup: None, name: "fault sweep partial close".into(), cfg: c, traders: T2.to_vec(), seeds: vec![vec![]], alpha: Alpha::Dyn(alpha_c15), depth: tier.pick(3, 4), init_mon: Value::Null });
     }
     run_exps(&mut run, step_c08, exps, |_| {});
     run.finish()
@@ -1090,7 +1152,7 @@ pub fn run_c15(tier: Tier) -> i32 {
     };
     let mut exps = vec![];
     let mut push = |c: Cfg, d: usize| {
-        exps.push(Exp { name: "price band".into(), cfg: c, traders: T2.to_vec(), seeds: vec![vec![]], alpha: Alpha::Dyn(alpha_c15), depth: d, init_mon: Value::Null });
+        exps.push(Exp { setup: None, name: "price band".into(), cfg: c, traders: T2.to_vec(), seeds: vec![vec![]], alpha: Alpha::Dyn(alpha_c15), depth: d, init_mon: Value::Null });
     };
     match tier {
         Tier::Quick => {
